@@ -234,6 +234,82 @@ func zeroValueOf(t types.Type) ssa.Value {
 	return c
 }
 
+// exitPoint: one way out of a function. A `return` in a block that only merges (several unconditional jumps into a
+// block that does nothing but run the deferred calls and return — what `break L … }` at the end of an expanded helper
+// produces) stands for one exit per incoming jump; At is the jump, and conditions / dominance are those of the jump.
+type exitPoint struct {
+	Ret *ssa.Return
+	At  ssa.Instruction
+	// Atoms: the conditions in force on this way out (those at At, plus the branch taken when At is a conditional)
+	Atoms []Atom
+}
+
+func exitPointsOf(f *ssa.Function) []exitPoint {
+	var out []exitPoint
+	pureMerge := func(b *ssa.BasicBlock) bool {
+		for _, in := range b.Instrs {
+			switch x := in.(type) {
+			case *ssa.Return, *ssa.RunDefers, *ssa.Phi, *ssa.Jump, *ssa.DebugRef:
+			case *ssa.UnOp:
+				if x.Op != token.MUL {
+					return false
+				}
+			case *ssa.Store:
+				if !isSelfStore(x) {
+					return false
+				}
+			default:
+				return false
+			}
+		}
+		return true
+	}
+	for _, r := range returnsOf(f) {
+		var expand func(b *ssa.BasicBlock, depth int) []exitPoint
+		expand = func(b *ssa.BasicBlock, depth int) []exitPoint {
+			if depth > 4 || len(b.Preds) < 1 || !pureMerge(b) || (len(b.Preds) < 2 && depth == 0) {
+				return nil
+			}
+			var res []exitPoint
+			for _, p := range b.Preds {
+				last := p.Instrs[len(p.Instrs)-1]
+				switch x := last.(type) {
+				case *ssa.Jump:
+					if len(p.Instrs) == 1 {
+						// an empty forwarding block: look further up
+						if up := expand(p, depth+1); up != nil {
+							res = append(res, up...)
+							continue
+						}
+					}
+					res = append(res, exitPoint{r, last, AtomsAt(last)})
+				case *ssa.If:
+					// a conditional edge straight into the merge (`if c { break L }` after jump threading): the ways up to
+					// the branch are the same for both edges, the edge adds its condition
+					if len(p.Succs) != 2 || p.Succs[0] == p.Succs[1] {
+						return nil
+					}
+					pol := p.Succs[0] == b
+					as := append(AtomsAt(last), NormCond(x.Cond, pol))
+					for _, g := range shortCircuitGuards(x.Cond, pol, x, 0) {
+						as = append(as, NormCond(g.Cond, g.Pol))
+					}
+					res = append(res, exitPoint{r, last, as})
+				default:
+					return nil
+				}
+			}
+			return res
+		}
+		if xs := expand(r.Block(), 0); len(xs) > 0 {
+			out = append(out, xs...)
+		} else {
+			out = append(out, exitPoint{r, r, AtomsAt(r)})
+		}
+	}
+	return out
+}
+
 // unitRetPoints: the return points of the anchor and of the code split off from it.
 func (p *Prog) unitRetPoints(anchor *ssa.Function) []retPoint {
 	var out []retPoint
